@@ -245,6 +245,74 @@ fn cuts_for(reply: &[u8], thorough: bool) -> Vec<Vec<usize>> {
     out
 }
 
+/// Which kind of message carries the relay buffer across the 8196-byte threshold: a notice, an error,
+/// a wide row description, a parameter status — before, between and after rows.
+pub fn threshold_cases() -> Vec<RawCase> {
+    let q = |s: &str| wire::query(s);
+    let big = |n: usize| "n".repeat(n);
+    let after = || rows_reply(&[13], b'I');
+    let mut v = Vec::new();
+    let mut add = |name: &str, reply: Vec<u8>| {
+        v.push(RawCase { name: format!("threshold-{}", name), requests: vec![(q("SELECT t /*c0.t0.s0*/"), b'Z'), (q("SELECT after /*c0.t1.s0*/"), b'Z')], replies: vec![reply, after()] });
+    };
+    for n in [8170usize, 8190, 9000, 20000] {
+        // NOTICE then CommandComplete
+        let mut b = wire::notice_response(&big(n));
+        b.extend(wire::command_complete("DO"));
+        b.extend(wire::ready(b'I'));
+        add(&format!("notice{}-C", n), b);
+        // NOTICE in front of a result set
+        let mut b = wire::notice_response(&big(n));
+        b.extend(wire::row_description(&["c"]));
+        b.extend(row(100, 0));
+        b.extend(row(100, 1));
+        b.extend(wire::command_complete("SELECT 2"));
+        b.extend(wire::ready(b'I'));
+        add(&format!("notice{}-rows", n), b);
+        // rows, NOTICE, rows
+        let mut b = wire::row_description(&["c"]);
+        b.extend(row(100, 0));
+        b.extend(wire::notice_response(&big(n)));
+        b.extend(row(100, 1));
+        b.extend(wire::command_complete("SELECT 2"));
+        b.extend(wire::ready(b'I'));
+        add(&format!("row-notice{}-row", n), b);
+        // a large ErrorResponse, alone and after a row
+        let mut b = wire::error_response("ERROR", "22000", &big(n));
+        b.extend(wire::ready(b'I'));
+        add(&format!("error{}", n), b);
+        let mut b = wire::row_description(&["c"]);
+        b.extend(row(100, 0));
+        b.extend(wire::error_response("ERROR", "22000", &big(n)));
+        b.extend(wire::ready(b'I'));
+        add(&format!("row-error{}", n), b);
+        // ParameterStatus
+        let mut b = wire::parameter_status("search_path", &big(n));
+        b.extend(wire::command_complete("SET"));
+        b.extend(wire::ready(b'I'));
+        add(&format!("status{}-C", n), b);
+    }
+    // two notices that only together cross the threshold
+    let mut b = wire::notice_response(&big(4100));
+    b.extend(wire::notice_response(&big(4100)));
+    b.extend(wire::command_complete("DO"));
+    b.extend(wire::ready(b'I'));
+    add("notice4100x2-C", b);
+    // a row description wider than the threshold
+    for ncols in [300usize, 500] {
+        let names: Vec<String> = (0..ncols).map(|i| format!("col{:03}", i)).collect();
+        let refs: Vec<&str> = names.iter().map(|s| s.as_str()).collect();
+        let mut b = wire::row_description(&refs);
+        let cells: Vec<Vec<u8>> = (0..ncols).map(|i| format!("{}", i).into_bytes()).collect();
+        let cell_refs: Vec<&[u8]> = cells.iter().map(|c| c.as_slice()).collect();
+        b.extend(wire::data_row(&cell_refs));
+        b.extend(wire::command_complete("SELECT 1"));
+        b.extend(wire::ready(b'I'));
+        add(&format!("rowdesc{}cols", ncols), b);
+    }
+    v
+}
+
 /// COPY FROM STDIN with every sequence of client chunk sizes (below / at / above the 8196-byte
 /// forwarding threshold) up to a length: order and completeness of what the server receives.
 pub fn copyin_seq_cases(thorough: bool) -> Vec<RawCase> {
@@ -721,6 +789,12 @@ pub fn build(tier: &str) -> SimCheck {
     for case in copyin_seq_cases(thorough) {
         scenarios.push(raw_scenario(&case, 0, &[], None));
     }
+    for case in threshold_cases() {
+        scenarios.push(raw_scenario(&case, 0, &[], None));
+        // and delivered in two TCP writes, cut in the middle of the big message
+        let mid = case.replies[0].len() / 2;
+        scenarios.push(raw_scenario(&case, 0, &[mid], None));
+    }
     for g in super::c08::gen_programs(if thorough { 3 } else { 2 }) {
         scenarios.push(gen_session_scenario(&g));
     }
@@ -742,7 +816,7 @@ pub fn build(tier: &str) -> SimCheck {
         oracle: Box::new(oracle),
         bound: 0,
         limits: Limits { max_wall_s: if thorough { 1500.0 } else { 50.0 }, ..Default::default() },
-        rule: "raw: reply stream catalogue (row sizes around the 8196-byte thresholds, empty/multi-statement, Notice/ParameterStatus, mid-stream error, COPY out/in/fail with chunk sizes around 8196, COPY in with every sequence of <= 3 (thorough 4) client chunks over 6 sizes below/at/above the threshold, SELECT+COPY in one Query, portal suspension, in-transaction status) x every single cut of the server stream at message boundaries +-0..5 bytes and at the thresholds x client-request cuts; ref: 13 request shapes (simple, extended, named, pipelined, bare Sync then batch, Sync Sync, Describe, Close+re-Parse, Flush, big, COPY, error in batch) x caching on/off x gating, compared with the direct-connection reference; gen-session: every generated extended-protocol batch program of C08 (<= 2, thorough 3 items) in session mode without statement caching, replies and server-received messages compared with the client's; distinct = distinct histories".into(),
+        rule: "raw: reply stream catalogue (row sizes around the 8196-byte thresholds, empty/multi-statement, Notice/ParameterStatus, mid-stream error, COPY out/in/fail with chunk sizes around 8196, every kind of message (notice, error, parameter status, wide row description) carrying the buffer across the threshold before / between / after rows, COPY in with every sequence of <= 3 (thorough 4) client chunks over 6 sizes below/at/above the threshold, SELECT+COPY in one Query, portal suspension, in-transaction status) x every single cut of the server stream at message boundaries +-0..5 bytes and at the thresholds x client-request cuts; ref: 13 request shapes (simple, extended, named, pipelined, bare Sync then batch, Sync Sync, Describe, Close+re-Parse, Flush, big, COPY, error in batch) x caching on/off x gating, compared with the direct-connection reference; gen-session: every generated extended-protocol batch program of C08 (<= 2, thorough 3 items) in session mode without statement caching, replies and server-received messages compared with the client's; distinct = distinct histories".into(),
         assumptions: vec![
             "TLS framing not exercised (generic Client<S,T> relay code is the same)".into(),
             "reference backend run without a pooler defines the direct-connection reply".into(),
